@@ -12,6 +12,7 @@ import (
 	"time"
 
 	"github.com/nuts-foundation/nuts-node/crypto/hash"
+	"github.com/nuts-foundation/nuts-node/jsonld"
 	"github.com/nuts-foundation/nuts-node/network"
 	"github.com/nuts-foundation/nuts-node/network/dag"
 	"verifsim/seams"
@@ -56,6 +57,10 @@ type c14State struct {
 	mu        sync.Mutex
 	scripts   []subScript
 	attempts  map[string]map[hash.SHA256Hash]int
+	// exempt: the subscriber answered this event with an "unknown JSON-LD context" error at least once. The start-up
+	// replay deliberately skips events whose stored error is that one (issue #2569), so they are not judged for
+	// replay and completion; every other event still is.
+	exempt    map[string]map[hash.SHA256Hash]bool
 	completed map[string]map[hash.SHA256Hash]int // sub -> ref -> step at which the job deletion committed
 	calls     []delivery
 	booting   bool
@@ -86,7 +91,7 @@ func c14Body(s *simkit.Sim, rc *simkit.RunCtx) {
 	sample := &c14Sample{}
 	rc.Sample = sample
 	enum := rc.Plan != nil
-	st := &c14State{attempts: map[string]map[hash.SHA256Hash]int{}, completed: map[string]map[hash.SHA256Hash]int{}, pending: map[int]map[string][]hash.SHA256Hash{}}
+	st := &c14State{attempts: map[string]map[hash.SHA256Hash]int{}, exempt: map[string]map[hash.SHA256Hash]bool{}, completed: map[string]map[hash.SHA256Hash]int{}, pending: map[int]map[string][]hash.SHA256Hash{}}
 
 	// ---- subscribers of this run ----
 	modes := []string{"ok", "flaky", "incomplete", "fatal", "never"}
@@ -105,6 +110,7 @@ func c14Body(s *simkit.Sim, rc *simkit.RunCtx) {
 		}
 		st.scripts = append(st.scripts, sc)
 		st.attempts[sc.Name] = map[hash.SHA256Hash]int{}
+		st.exempt[sc.Name] = map[hash.SHA256Hash]bool{}
 		st.completed[sc.Name] = map[hash.SHA256Hash]int{}
 	}
 	// "late recovery": one subscriber keeps failing beyond the point at which an event is shown as failed (10 retries)
@@ -113,6 +119,11 @@ func c14Body(s *simkit.Sim, rc *simkit.RunCtx) {
 	if lateRecovery {
 		st.scripts[1].Mode = "flaky"
 		st.scripts[1].K = 12 + s.D.Decide("late-k", 3)
+	}
+	// "budget edge": one subscriber never succeeds; the node restarts when an event has one attempt of its budget left
+	budgetEdge := !enum && !lateRecovery && s.D.Decide("budget-edge", 4) == 3
+	if budgetEdge {
+		st.scripts[1].Mode = "never"
 	}
 	sample.Subscribers = st.scripts
 
@@ -165,6 +176,10 @@ func c14Body(s *simkit.Sim, rc *simkit.RunCtx) {
 				if at, done := st.completed[sc.Name][ev.Hash]; done {
 					s.Fail("C14.no-redelivery", sc.Mode, "subscriber %s called for %s after its completion was recorded at step %d (now step %d, gen %d)", sc.Name, ev.Hash, at, s.Steps, inc.Gen)
 				}
+				// (the replay at start-up calls for every stored job once, whatever its count: only later calls are judged)
+				if ev.Retries >= c14RetryBudget && !st.booting {
+					s.Fail("C14.budget", sc.Mode, "subscriber %s called for %s although the %d attempts recorded for it already spent the retry budget of %d (gen %d)", sc.Name, ev.Hash, ev.Retries, c14RetryBudget, inc.Gen)
+				}
 				n := st.attempts[sc.Name][ev.Hash]
 				st.attempts[sc.Name][ev.Hash] = n + 1
 				var fin bool
@@ -173,7 +188,12 @@ func c14Body(s *simkit.Sim, rc *simkit.RunCtx) {
 				case "ok":
 					fin = true
 				case "flaky":
-					if n < sc.K {
+					if n < sc.K && ev.Hash[2]%6 == 0 {
+						// what the VCR reports for a credential with a JSON-LD context that is not on the allow list
+						err = fmt.Errorf("scripted failure: %w", jsonld.ContextURLNotAllowedErr)
+						st.exempt[sc.Name][ev.Hash] = true
+						s.Probes.Inc("subscriber-reported-unknown-context")
+					} else if n < sc.K {
 						// a recoverable failure, in the shapes subscribers produce them (the VCR's wraps context errors)
 						switch (int(ev.Hash[1]) + n) % 4 {
 						case 0:
@@ -242,7 +262,10 @@ func c14Body(s *simkit.Sim, rc *simkit.RunCtx) {
 					fmt.Println("pending gens", len(st.pending), "gen", n.Inc.Gen)
 					st.mu.Unlock()
 				}
-				if !found {
+				st.mu.Lock()
+				ex := st.exempt[sub][r]
+				st.mu.Unlock()
+				if !found && !ex {
 					s.Fail("C14.replay-at-start", scriptMode(st, sub), "job of subscriber %s for %s was stored before start (gen %d) but not retried during start", sub, r, n.Inc.Gen)
 				}
 			}
@@ -377,6 +400,32 @@ func c14Body(s *simkit.Sim, rc *simkit.RunCtx) {
 		start()
 		s.Probes.Inc("restart-between-10th-and-20th-retry")
 		s.Advance(24 * time.Hour)
+	} else if budgetEdge {
+		// the waits grow to a day: step through virtual time until an event of the failing subscriber has used all
+		// attempts but one, restart there (the attempt made while starting is the last), then watch for more calls
+		found := false
+		for i := 0; i < 400 && !found && !s.Failed(); i++ {
+			s.Advance(time.Hour)
+			for _, nf := range h.node().Net.Subscribers() {
+				if nf.Name() != st.scripts[1].Name {
+					continue
+				}
+				evs, _ := nf.GetFailedEvents()
+				for _, e := range evs {
+					if e.Retries == c14RetryBudget-1 {
+						found = true
+					}
+				}
+			}
+		}
+		if found {
+			s.Enable(false)
+			h.w.Stop(h.name, s.D.Decide("edge-restart-crash", 2) == 1)
+			s.Enable(true)
+			start()
+			s.Probes.Inc("restart-with-one-attempt-left")
+			s.Advance(72 * time.Hour)
+		}
 	} else {
 		s.Advance(2 * time.Hour)
 	}
@@ -404,6 +453,9 @@ func c14Body(s *simkit.Sim, rc *simkit.RunCtx) {
 	}
 	rc.Nontrivial = len(st.calls) > 0 && (s.NonFIFO > 0 || len(s.Faults.Map()) > 0)
 }
+
+// c14RetryBudget is the retry budget the property speaks of (attempts per event and subscriber).
+const c14RetryBudget = 20
 
 var debugGaps = os.Getenv("VERIF_DEBUG_GAPS") != ""
 
@@ -480,6 +532,9 @@ func c14Final(s *simkit.Sim, h *dagHarness, st *c14State, sample *c14Sample, pha
 				return
 			}
 			_, done := st.completed[sc.Name][ref]
+			if !done && st.exempt[sc.Name][ref] {
+				continue // not replayed at start-up by design, see c14State.exempt
+			}
 			if !done && (sc.Mode == "ok" || sc.Mode == "flaky" || sc.Mode == "incomplete") {
 				// subscribers that eventually succeed must have been completed by now
 				s.Fail("C14.at-least-once", "complete:"+sc.Mode, "%s: subscriber %s (mode %s) would have completed %s but delivery stopped after %d calls", phase, sc.Name, sc.Mode, ref, len(cs))
